@@ -92,6 +92,11 @@ UNITS["C04"] = [
 ]
 
 UNITS["C17"] = [
+    dict(kind="kani", name="c17_token", crate="kani/c17_token",
+         harnesses=[dict(name="token_decision_len2", tier="thorough", bound="configured token and presented token: printable ASCII, length <= 2 each (prefix / suffix / empty cases are inside the bound)"),
+                    dict(name="token_decision_len3", tier="thorough", bound="same, length <= 3")],
+         trusted=["stand-ins for Agent::config, TypedHeader::token, axum StatusCode; real String/&str comparison as compiled by Kani"],
+         assumptions=["helper functions called by the fragment are imported verbatim from the same file on demand"]),
     dict(kind="verus", name="c17_authz", template="specs/c17_authz.vrs",
          under_contract=["frag_authz", "frag_readonly_guard"], vacuity=["frag_authz", "frag_readonly_guard"],
          assumptions=["String/&str token comparison replaced by a stand-in text type whose == is sequence equality",
